@@ -23,9 +23,9 @@ TREE = ("Shared executable model of write.py / utils.py / read.py (coq/Model/H5.
         "templates parameterised by content tokens; tied to /repo on every run by evaluating the scenarios in Coq (vm_compute) against "
         "a raw-h5py walk of the files the real emdfile wrote, plus constant tables generated from the sources. ")
 CLAIMED['C01'] = dict(
-   text="Writer half proved for every tree (structural induction over the nested tree type): the recursive writer stores each child's whole branch inside its parent's group (write_tree = enc), a saved file is the header plus one top-level group holding the encoded tree, each node is the HDF5 group at /<root name><node path> with its class tags, and a node's group links exactly its own datasets/bundle and its children. Reader half (populate/read on the file) by correspondence on exhaustive small trees x class assignments + random trees, and an independent oracle comparing paths/classes of the raw file and of the read-back tree.",
-   note=TB + TREE + "PARTIAL: reader half not proved. ok_tree hypothesis = sibling names distinct and not clashing with the parent's own datasets (format limitation F18). Modelled not verified: h5py link/attribute semantics, name-ordered iteration.",
-   technique="Coq proof by structural induction (writer refines an encoding function) + vm_compute correspondence", ref="5 C01")
+   text="Both halves proved for every tree (structural induction over the nested tree type). Writer: the recursive writer stores each child's whole branch inside its parent's group (write_tree = enc); a saved file is the header plus one top-level group holding the encoded tree; each node is the HDF5 group at /<root name><node path> with its class tags; a node's group links exactly its own datasets/bundle and its children. Reader: the detector accepts the file, and read(path) of the saved file returns canon(tree) -- the same tree with, at every node, the same class, name, payload token / rank as its class stores them, all metadata, children in name order -- handed back as the root, its only child or its only Metadata exactly as read() selects; a path leads to a node in the tree read back iff it does in the tree saved, and to the same node. Correspondence on exhaustive small trees x class assignments + random trees (rank-0 Arrays included), and an independent oracle comparing paths/classes of the raw file and of the read-back tree.",
+   note=TB + TREE + "Hypotheses: ok_tree = sibling names distinct and not clashing with the parent's own datasets (format limitation F18); rd_tree = no node below the top is a Root or is named 'metadatabundle' (refused by Node.to_h5); root name non-empty without '/'. Payload content by token (per-class codecs are C02-C04). Modelled not verified: h5py link/attribute semantics, name-ordered iteration.",
+   technique="Coq proof by structural induction (writer refines an encoding function, reader inverts it up to name order) + vm_compute correspondence", ref="5 C01 / 12.3")
 CLAIMED['C05'] = dict(
    text="Proved layout facts about everything the writer model produces: valid group-type tags (from the generated vocabulary) and python_class on every node group at every path, metadata in a tagged bundle of tagged typed items, the written header passing the package detector, program/user from the session configuration, the bundle created by the append path tagged, no scratch group after a replace (C09/C18 theorems). The full validator (incl. Array data/dim datasets and every dispatch branch, every mode, histories, author settings) runs as an h5py-only oracle after every successful save of ~600 scenarios, with the package detector/version query.",
    note=TB + TREE + "PARTIAL: no single theorem covers the whole dispatcher; Array dim-dataset clauses are checked by the oracle (templates) and in C02/C14.",
@@ -35,9 +35,9 @@ CLAIMED['C07'] = dict(
    note=TB + TREE + "Hypotheses: the target is reachable at tp in the runtime tree (C12), names do not clash with the root's own bundle. Payload content by token.",
    technique="Coq proof (equational, on top of write_tree = enc) + vm_compute correspondence", ref="5 C07")
 CLAIMED['C08'] = dict(
-   text="Proved: over the open-mode table generated from the sources every h5py.File( call on the read path uses 'r'; the tree reader is compositional (what the full read holds below a node for each tagged child is exactly what reading that child alone plus its branch returns); a missing path component is an error; a leading slash is ignored. Correspondence + oracle: every node path x 3 options x leading slash, missing paths, multi-root files, sha256 before/after each read.",
-   note=TB + TREE + "PARTIAL: the per-option selection of read() is tied by correspondence; byte immutability under open mode 'r' is HDF5's (trusted).",
-   technique="Coq proof over generated open-mode table + reader compositionality lemma + vm_compute correspondence", ref="5 C08")
+   text="Proved: over the open-mode table generated from the sources every h5py.File( call on the read path uses 'r'; for every saved tree and every inner node the result of read(path, emdpath, tree) for each of the three tree options as a closed term (root with its metadata plus exactly the node alone / the node with its whole branch / the branch below the node at root level), which is the subtree the full read holds at that path; the tree reader is compositional on arbitrary files; a missing path component is an error; a leading slash is ignored. Correspondence + oracle: every node path x 3 options x leading slash, missing paths, multi-root files, sha256 before/after each read.",
+   note=TB + TREE + "Hypotheses as C01 plus non-empty slash-free names along the path. Byte immutability under open mode 'r' is HDF5's (trusted); sha256 before/after is observed by the oracle.",
+   technique="Coq proof (string split/join lemmas, walk over the encoding, reader inverse) + generated open-mode table + vm_compute correspondence", ref="5 C08 / 12.3")
 CLAIMED['C09'] = dict(
    text="Proved for every runtime tree and file group: append mode only EXTENDS the file tree (every object already there is still at its path with the same attributes and datasets, at any depth); a runtime child the file lacks is written with its whole branch at its runtime path; the append-over replace step gives the node the runtime node's own content (tags, metadata, datasets), keeps the data children that exist only in the file, leaves siblings untouched and no scratch group. The full dispatcher (which branch for which target/emdpath/tree option, root metadata, sequences) is tied by correspondence on ~700 pair/sequence scenarios and by an independent reference model of union/replace used as oracle.",
    note=TB + TREE + "PARTIAL: composition over the dispatcher not proved. str.replace path arithmetic of write.py modelled path-wise.",
